@@ -1,5 +1,5 @@
 -------------------------- MODULE ListGradingTrace --------------------------
-(* Code -> spec binding for C05.  Every record is one real ListGrader call on a generated layout:
+(* Code -> spec binding for C05.  Every record (kind = "layout") is one real ListGrader call on a generated layout:
      tree    the layout (ListGrading part 3): flags, group maps, the credit of every leaf cell (exact rationals;
              table-driven cells come from the generated table, cells graded by other real graders from a direct call),
              and for unordered nodes with more than EnumLimit groups an LP-duality certificate per answer list
@@ -28,7 +28,31 @@ Clause(r) ==
           ELSE IF \E p \in 1..Len(r.obs) : r.obs[p].ok # OkOf(e.res[p]) THEN "ok"
           ELSE IF r.tree.ordered /\ Len(r.direct) > 0 /\ DirectFinished(r.direct, r.tree.pc) # r.obs THEN "direct"
           ELSE ""
-Verdict(i) == LET r == Rec(i)  w == Clause(r) IN IF w = "" THEN TRUE ELSE PrintT(<<"REJECT", r.id, w>>)
+(* Compact records (kind = "flat") for the dense stream aimed at the matching core: one flat ListGrader call,
+     den, M      credit tensor M[a][i][j] in units of 1/den          ordered, pc   flags
+     cert        per answer list [u, v, sigma] with potentials in units (read only for more than EnumLimit inputs)
+     obs         per box <<a, j, units, ok, inp>>: answer list and answer named by the entry's marker, reported credit
+                 in units (-1 when it is not a multiple of 1/den), ok, and the input the marker names
+   They are judged by the same operators as the layout records: the tensor becomes FlatTree(M, cfg). *)
+FlatRecTree(r) ==
+  LET M == TLCEval([a \in 1..Len(r.M) |-> TLCEval([i \in 1..Len(r.M[a]) |-> TLCEval([j \in 1..Len(r.M[a][i]) |-> Q(r.M[a][i][j], r.den)])])])
+      RatSeq(s) == [k \in 1..Len(s) |-> Q(s[k], r.den)]
+      cert == [a \in 1..Len(r.cert) |-> [u |-> RatSeq(r.cert[a].u), v |-> RatSeq(r.cert[a].v), sigma |-> r.cert[a].sigma]]
+  IN [FlatTree(M, [ordered |-> r.ordered, pc |-> r.pc]) EXCEPT !.cert = cert]
+FlatClause(r) ==
+  LET t == FlatRecTree(r)
+      n == Len(r.obs)
+  IN IF ~ValidTree(t) THEN "layout"
+     ELSE IF ~CertsOK(t) THEN "cert"
+     ELSE IF n # NPos(t) THEN "length"
+     ELSE IF \E p \in 1..n : r.obs[p][5] # p THEN "position"
+     ELSE LET e == Eval(t, [p \in 1..n |-> <<r.obs[p][1], r.obs[p][2], 1>>])
+          IN IF e.why # "" THEN e.why
+             ELSE IF \E p \in 1..n : r.obs[p][3] < 0 \/ Q(r.obs[p][3], r.den) # e.res[p] THEN "grade"
+             ELSE IF \E p \in 1..n : r.obs[p][4] # OkOf(e.res[p]) THEN "ok"
+             ELSE ""
+Verdict(i) == LET r == Rec(i)  w == IF r.kind = "flat" THEN FlatClause(r) ELSE Clause(r)
+              IN IF w = "" THEN TRUE ELSE PrintT(<<"REJECT", r.id, w>>)
 Init == l = 0
 Next == /\ l < Len(Trace)
         /\ l' = l + 1
